@@ -225,6 +225,36 @@ func runC10(c *Ctx) {
 				}
 			}
 		}
+		// every entry is reported: no way round the loop misses the visitor call
+		{
+			okAll, nloops := true, 0
+			var where []string
+			for n, in := range g.Ins {
+				call, ok := in.(*ssa.Call)
+				if !ok || call.Common().Value != ssa.Value(visP) {
+					continue
+				}
+				hdr, body := loopOf(call.Block())
+				if hdr == nil {
+					okAll = false
+					continue
+				}
+				nloops++
+				var starts []int
+				for _, sb := range hdr.Succs {
+					if body[sb] && sb != hdr {
+						starts = append(starts, g.First[sb])
+					}
+				}
+				inHdr := func(k int) bool { return g.Ins[k] != nil && g.Ins[k].Block() == hdr }
+				if p := g.Path(starts, nil, func(k int) bool { return k == n }, inHdr); p != nil {
+					okAll = false
+					where = g.where(p, 8)
+				}
+			}
+			c.check(okAll && nloops > 0, "C10.R1", "every-entry-visited "+m.fnName(visitMem), "every iteration of the entry loop reaches the visitor call",
+				"an iteration of the entry loop can go on to the next entry without reporting this one: the regions are not reported exactly", where...)
+		}
 		c.check(okOrder && nv > 0, "C10.R1", "normalise-then-visit "+m.fnName(visitMem), "the visitor sees the entry only after its type has been normalised", "the visitor is called before the entry's type is normalised", m.pos(visitMem.Pos()))
 	}
 
@@ -496,7 +526,7 @@ func runC10(c *Ctx) {
 	}
 
 	// ================= R5 =================
-	c.floor("C10.R5", 2)
+	c.floor("C10.R5", 3)
 	{
 		ge := newIG(m, visitElf, nil)
 		visP := visitElf.Params[0]
@@ -518,6 +548,80 @@ func runC10(c *Ctx) {
 			bad = "the section visitor is never called"
 		}
 		c.check(bad == "", "C10.R5", "non-empty-sections "+m.fnName(visitElf), "the visitor is called only for sections with size != 0", bad, m.pos(visitElf.Pos()))
+		// a section header is read only while the section counter is below the
+		// table's numSections: with an empty table nothing behind the tag is touched
+		secT := m.lookupType(mb, "elfSection64")
+		numF := m.fieldOf(mb, "elfSections", "numSections")
+		if secT == nil || numF == nil {
+			c.unresolved("C10.R5", "multiboot.elfSection64 / elfSections.numSections")
+		} else {
+			bad = ""
+			where := m.pos(visitElf.Pos())
+			nld := 0
+			boundedBy := func(h *ssa.BasicBlock, body map[*ssa.BasicBlock]bool) bool {
+				for blk := range body {
+					ifi, ok := blk.Instrs[len(blk.Instrs)-1].(*ssa.If)
+					if !ok || len(blk.Succs) != 2 || body[blk.Succs[0]] == body[blk.Succs[1]] {
+						continue
+					}
+					f, ok := condFact(ifi.Cond, body[blk.Succs[0]])
+					if !ok || f.Y == nil {
+						continue
+					}
+					for _, pr := range [][2]ssa.Value{{f.X, f.Y}, {f.Y, f.X}} {
+						op := f.Op
+						if pr[0] != f.X {
+							op = swapOp(op)
+						}
+						if phi, isPhi := stripConv(pr[0]).(*ssa.Phi); isPhi && phi.Block() == h && (op == token.LSS || op == token.NEQ) && isLoadOfField(stripConv(pr[1]), numF) {
+							return true
+						}
+					}
+				}
+				return false
+			}
+			for n, in := range ge.Ins {
+				ld, ok := in.(*ssa.UnOp)
+				if !ok || ld.Op != token.MUL {
+					continue
+				}
+				fa, ok := ld.X.(*ssa.FieldAddr)
+				if !ok {
+					continue
+				}
+				pt, ok := fa.X.Type().Underlying().(*types.Pointer)
+				if !ok || !types.Identical(pt.Elem(), secT) {
+					continue
+				}
+				nld++
+				inLoop := false
+				blk := ld.Block()
+				for depth := 0; depth < 4 && blk != nil; depth++ {
+					h, body := loopOf(blk)
+					if h == nil {
+						break
+					}
+					if boundedBy(h, body) {
+						inLoop = true
+						break
+					}
+					blk = nil
+					for _, p := range h.Preds {
+						if !body[p] {
+							blk = p
+						}
+					}
+				}
+				if !inLoop {
+					bad = "a section header is read outside the loop that is bounded by numSections: with an empty section table bytes behind the tag are read"
+					where = ge.posOf(n)
+				}
+			}
+			if nld == 0 {
+				bad = "no section header read found (rule shape lost)"
+			}
+			c.check(bad == "", "C10.R5", "section-reads-bounded "+m.fnName(visitElf), fmt.Sprintf("%d read(s) of section headers, all inside the loop bounded by numSections", nld), bad, where)
+		}
 		gr := newIG(m, rgb, nil)
 		rgbV, _ := namedConstUint(m, mb, "FramebufferTypeRGB")
 		bad = ""
